@@ -29,7 +29,7 @@ func TestGovcReplayCreateAndEnterDeletedLeaksLock(t *testing.T) {
 		t.Fatalf("expected ENOENT on a deleted directory, got %v", err)
 	}
 	if !d.lock.TryLock() {
-		t.Fatal("directory lock is still held after CreateAndEnterPrepopulatedDirectory returned ENOENT")
+		t.Fatal("GOVC-REPLAY-VIOLATION: directory lock is still held after CreateAndEnterPrepopulatedDirectory returned ENOENT")
 	}
 	d.lock.Unlock()
 }
